@@ -11,5 +11,7 @@ for id in "$@"; do
   echo "$out" | grep -E "^VIOLATION|signature|KNOWN|harness" | cut -c1-260 | head -8
 done
 git -C /repo checkout -- .
+# leave /verif/target with a build of the unchanged tree again (background sweeps copy it)
+(cd /verif && ./check --build >/dev/null 2>&1)
 rm -f /verif/replays/*.json
 (cd /verif && git checkout -q -- evidence 2>/dev/null)
